@@ -138,6 +138,19 @@ Proof. reflexivity. Qed.
 Lemma credit_nil_done nd n rt e : credit nd NILNODE (stat_recordCompleteFor n e rt (NILNODE =? NILNODE)) = nd.
 Proof. reflexivity. Qed.
 
+(* the traffic-type test, however it is written: `ft == base.Inbound`, `base.Inbound == ft`,
+   `!(ft != base.Inbound)` *)
+Ltac flow_facts Hi :=
+  match type of Hi with
+  | ?i = (?ft =? 0) =>
+      assert (FlowE1 : (ft =? 0) = i) by (symmetry; exact Hi);
+      assert (FlowE2 : (0 =? ft) = i) by (rewrite Z.eqb_sym; symmetry; exact Hi)
+  end.
+Ltac flow_rewrite :=
+  match goal with
+  | E1 : (?ft =? 0) = _, E2 : (0 =? ?ft) = _ |- _ => rewrite ?E1, ?E2
+  end.
+
 Lemma inb_not_nil : INB <> NILNODE.
 Proof. unfold INB, NILNODE; lia. Qed.
 
@@ -147,8 +160,8 @@ Theorem stat_OnEntryPassed_ok x nd ft : x_res x <> NILNODE -> x_inb x = (ft =? 0
   slot_acts (stat_OnEntryPassed (x_batch x) ft INB (node_id x)) (x, nd) =
   (x, on_nodes nd x (fun c => node_pass c (x_batch x))).
 Proof.
-  intros Hr Hi. unfold stat_OnEntryPassed, slot_acts, on_nodes, node_id. cbv zeta. rewrite Hi.
-  destruct (ft =? 0), (x_node x); cbn [fold_left slot_act];
+  intros Hr Hi. flow_facts Hi. unfold stat_OnEntryPassed, slot_acts, on_nodes, node_id. cbv zeta. flow_rewrite.
+  destruct (x_inb x), (x_node x); cbn [negb fold_left slot_act];
     rewrite ?credit_nil_pass, ?credit_pass by (exact Hr || exact inb_not_nil); reflexivity.
 Qed.
 
@@ -156,8 +169,8 @@ Theorem stat_OnEntryBlocked_ok x nd ft : x_res x <> NILNODE -> x_inb x = (ft =? 
   slot_acts (stat_OnEntryBlocked (x_batch x) ft INB (node_id x)) (x, nd) =
   (x, on_nodes nd x (fun c => node_block c (x_batch x))).
 Proof.
-  intros Hr Hi. unfold stat_OnEntryBlocked, slot_acts, on_nodes, node_id. cbv zeta. rewrite Hi.
-  destruct (ft =? 0), (x_node x); cbn [fold_left slot_act];
+  intros Hr Hi. flow_facts Hi. unfold stat_OnEntryBlocked, slot_acts, on_nodes, node_id. cbv zeta. flow_rewrite.
+  destruct (x_inb x), (x_node x); cbn [negb fold_left slot_act];
     rewrite ?credit_nil_block, ?credit_block by (exact Hr || exact inb_not_nil); reflexivity.
 Qed.
 
@@ -168,8 +181,8 @@ Theorem stat_OnCompleted_go x nd ft t : x_res x <> NILNODE -> x_inb x = (ft =? 0
   let rt := u64 (t - x_start x) in
   (set_rt x rt, on_nodes nd x (fun c => node_done c (x_batch x) (i64 rt) (x_err x))).
 Proof.
-  intros Hr Hi. unfold stat_OnCompleted, slot_acts, on_nodes, node_id. cbv zeta. rewrite Hi.
-  destruct (ft =? 0), (x_node x); cbn [fold_left slot_act x_node x_res x_inb set_rt];
+  intros Hr Hi. flow_facts Hi. unfold stat_OnCompleted, slot_acts, on_nodes, node_id. cbv zeta. flow_rewrite.
+  destruct (x_inb x), (x_node x); cbn [negb fold_left slot_act x_node x_res x_inb set_rt];
     rewrite ?credit_nil_done, ?credit_done by (exact Hr || exact inb_not_nil); reflexivity.
 Qed.
 
